@@ -305,6 +305,10 @@ func lockstep(c config, p rProg, ref *refState, obs *observation) lsResult {
 		// MVP-6.0's flush resets every execute unit and the control unit's queue, whatever their age
 		res.Mech = append(res.Mech, "flush-with-older-unexecuted")
 	}
+	if st.SquashedRegWB > 0 && c.V == "mvp6-2" {
+		// MVP-6.2 keeps one uncommitted value per register: a squashed instruction's write replaced an older one
+		res.Mech = append(res.Mech, "wrong-path-transaction-write")
+	}
 	// survivors in program order
 	var surv []int
 	for i := range dyn {
